@@ -492,6 +492,7 @@ def AzN.erase (a : AzN) (k : CN) : AzN := .ofP (fun j => a.has j && j != k)
 /-- state of `_check_names` during the azimuthal blocks: the pair already taken (`dimension = 2`), `is_momentum`,
 the azimuthal names still in `fieldnames` -/
 structure AkAz where (c : Option AzC) (mom : Bool) (rem : AzN)
+  deriving DecidableEq, Repr
 
 /-- one block `if k1 in fieldnames and k2 in fieldnames: [is_momentum = True]; if dimension != 0: raise …; …remove(k1); …remove(k2)` -/
 def akBlock (az : Az) (k1 k2 : CN) (setsMom : Bool) (st : AkAz) : Except CtorErr AkAz :=
